@@ -345,7 +345,19 @@ class Recorder(InstructionGenerator):
     def generate_instructions(self, sim, env):
         g, ins = self.inner.generate_instructions(sim, env)
         self.log.append((self.name, int(sim.sim_time), tuple(ins), sim))
-        return Recorder(g, self.log), ins
+        return record(g, self.log), ins
+
+
+_RECORDER_CLASSES: Dict[str, type] = {}
+
+
+def record(inner: InstructionGenerator, log: List) -> Recorder:
+    """a Recorder whose class carries the wrapped generator's class name: hive looks a generator that is put back into a
+    payload up by its class name (StepSimulation.update_instruction_generator)"""
+    n = type(inner).__name__
+    if n not in _RECORDER_CLASSES:
+        _RECORDER_CLASSES[n] = type(n, (Recorder,), {})
+    return _RECORDER_CLASSES[n](inner, log)
 
 
 def build_generators(ctrl: Dict[str, Any], env, seed: int):
